@@ -643,32 +643,33 @@ type deferred struct {
 }
 
 type frame struct {
-	vc       *VC
-	fn       *ssa.Function
-	contract *Contract
-	depth    int
-	path     string // inline path prefix for obligation names
-	vals     map[ssa.Value]Val
-	params   []Val
-	freeVars []Val
-	entry    *hstate
-	R0       string
-	loops    map[*ssa.BasicBlock]*loopInfo
-	loopOf   map[*ssa.BasicBlock][]*loopInfo
-	blkR     map[*ssa.BasicBlock]string // R at end of block
-	blkSt    map[*ssa.BasicBlock]*hstate
-	blkRin   map[*ssa.BasicBlock]string
-	edgeC    map[[2]int]string
-	defers   []deferred
-	rets     []retInfo
-	R        string
-	st       *hstate
-	cur      *ssa.BasicBlock
-	top      bool
-	callStk  []*ssa.Function
-	iters    map[*ssa.Range]string
-	pathMemo map[*ssa.BasicBlock][]string
-	extraEff map[string]bool
+	vc         *VC
+	fn         *ssa.Function
+	contract   *Contract
+	depth      int
+	path       string // inline path prefix for obligation names
+	vals       map[ssa.Value]Val
+	params     []Val
+	freeVars   []Val
+	entry      *hstate
+	R0         string
+	loops      map[*ssa.BasicBlock]*loopInfo
+	loopOf     map[*ssa.BasicBlock][]*loopInfo
+	blkR       map[*ssa.BasicBlock]string // R at end of block
+	blkSt      map[*ssa.BasicBlock]*hstate
+	blkRin     map[*ssa.BasicBlock]string
+	edgeC      map[[2]int]string
+	defers     []deferred
+	rets       []retInfo
+	R          string
+	st         *hstate
+	cur        *ssa.BasicBlock
+	top        bool
+	callStk    []*ssa.Function
+	iters      map[*ssa.Range]string
+	pathMemo   map[*ssa.BasicBlock][]string
+	extraEff   map[string]bool
+	atCallSeen map[string]int
 }
 
 type retInfo struct {
